@@ -99,6 +99,9 @@ func buildJobs(t *target, thorough bool) []job {
 	add := func(class string, run func(emit func([]byte))) { jobs = append(jobs, job{class, run}) }
 
 	for si := range t.seeds {
+		if !thorough && t.quickSeeds > 0 && si >= t.quickSeeds {
+			break
+		}
 		s := &t.seeds[si]
 		L := len(s.data)
 		// G1 + G2
@@ -108,12 +111,22 @@ func buildJobs(t *target, thorough bool) []job {
 				emit(s.data[:k])
 			}
 		})
-		// G3 in chunks of 64 positions
-		for p0 := 0; p0 < L; p0 += 64 {
+		// G3 in chunks of positions (small chunks for long seeds: better balance between workers)
+		chunk := 64
+		if L > 128 {
+			chunk = 8
+		}
+		for p0 := 0; p0 < L; p0 += chunk {
 			p0 := p0
+			if !thorough && p0 >= s.cold[0] && p0+chunk <= s.cold[1] {
+				continue
+			}
 			add("position-boundary", func(emit func([]byte)) {
 				buf := make([]byte, L)
-				for p := p0; p < p0+64 && p < L; p++ {
+				for p := p0; p < p0+chunk && p < L; p++ {
+					if !thorough && p >= s.cold[0] && p < s.cold[1] {
+						continue
+					}
 					copy(buf, s.data)
 					for _, v := range b8For(s.data[p]) {
 						buf[p] = v
@@ -123,18 +136,17 @@ func buildJobs(t *target, thorough bool) []job {
 			})
 		}
 		// G4
-		if len(s.len8) > 0 {
+		for _, off := range s.len8 {
+			off := off
 			add("len8-sweep", func(emit func([]byte)) {
 				buf := make([]byte, L)
-				for _, off := range s.len8 {
-					copy(buf, s.data)
-					for v := 0; v < 256; v++ {
-						if byte(v) == s.data[off] {
-							continue
-						}
-						buf[off] = byte(v)
-						emit(buf)
+				copy(buf, s.data)
+				for v := 0; v < 256; v++ {
+					if byte(v) == s.data[off] {
+						continue
 					}
+					buf[off] = byte(v)
+					emit(buf)
 				}
 			})
 		}
